@@ -627,6 +627,62 @@ def held_objects():
     return [(m(), m()) for m in mk]
 
 
+import itertools as _itertools
+_fresh_legacy = _itertools.count()
+
+
+@check("C01.firstfailure")
+def c_firstfailure(ctx, case):
+    """A legacy subclass (init-args protocol) whose very FIRST hash / comparison fails and is
+    caught by the caller -- its deprecation warning is turned into an error, or its
+    __getinitargs__ raises until a registry is filled -- is compared and hashed like any other
+    afterwards: by class and all of its init args."""
+    (how, base_name) = case
+    import warnings
+    base = {"Variable": p.Variable, "Expression": p.Expression}[base_name]
+    registry = {}
+
+    def __init__(self, name, tag):
+        if base is p.Variable:
+            p.Variable.__init__(self, name)
+        else:
+            object.__setattr__(self, "name", name)
+        object.__setattr__(self, "tag", tag)
+
+    def __getinitargs__(self):
+        if how == "initargs-raise" and "ready" not in registry:
+            raise KeyError("registry not filled yet")
+        return (self.name, self.tag)
+    cls = type(f"FreshLegacy{next(_fresh_legacy)}", (base,),
+               {"__init__": __init__, "__getinitargs__": __getinitargs__,
+                "init_arg_names": ("name", "tag"), "mapper_method": "map_fresh_legacy",
+                "__module__": __name__})
+    a, a2, b = cls("x", 1), cls("x", 1), cls("x", 2)
+    nested, nested2 = p.Sum((a, 1)), p.Sum((a2, 1))
+    with warnings.catch_warnings():
+        if how == "warning-as-error":
+            warnings.simplefilter("error")
+        for f in (lambda: hash(nested), lambda: hash(a), lambda: a == b, lambda: {a: 1}):
+            try:
+                f()
+            except RecursionError:
+                raise
+            except Exception:  # noqa: BLE001
+                ctx.count("first_use_failed_and_caught")
+    registry["ready"] = True
+    ctx.case(None)
+    ctx.count("legacy_classes_after_a_failed_first_use")
+    ok = _try(lambda: (a == a2, hash(a) == hash(a2), a != b, not (a == b), {a: 1}.get(a2) == 1,
+                       {a: 1}.get(b) is None, len({a, a2, b}) == 2, nested == nested2,
+                       hash(nested) == hash(nested2), isinstance(hash(a), int)))
+    if ok != ("v", (True,) * 10):
+        ctx.fail("C01.firstfailure", case, f"after-failed-first-use:{how}:{base_name}",
+                 f"legacy subclass of {base_name} with init args (name, tag), first hash / == failed "
+                 f"({how}) and was caught; afterwards with a = C('x', 1), a2 = C('x', 1), b = C('x', 2): "
+                 f"(a==a2, hashes equal, a!=b, not a==b, found under a2, b not found, two set members, "
+                 f"Sum((a,1))==Sum((a2,1)), their hashes, hash is an int) = {ok}")
+
+
 @check("C01.copyhash")
 def c_copyhash(ctx, case):
     """Hash look-ups interleaved with copies: whatever was cached on the original, a copy is
@@ -772,6 +828,29 @@ def workload(ctx):
                 ctx.case(("deep", fam, depth, snapshot(a)), True, n=0)
                 for b in deep:
                     ctx.run("C01.pair", (a, b))
+    # keyword arguments supplied in different orders (the mapping is the field: equal mappings,
+    # equal nodes, equal hashes), bare and inside other nodes
+    f_ = p.Variable("f")
+    import itertools as _it
+    items = [("alpha", 1), ("beta", x), ("gamma", p.Sum((x, 2))), ("a", -1)]
+    calls = []
+    for n in (2, 3, 4):
+        for perm in list(_it.permutations(items[:n]))[:8]:
+            calls.append(p.CallWithKwargs(f_, (x,), immutabledict(perm)))
+    calls.append(p.CallWithKwargs(f_, (x,), immutabledict([("alpha", 2), ("beta", x)])))
+    calls += [p.Sum((c, 1)) for c in calls[:6]] + [p.Call(f_, (c,)) for c in calls[2:6]]
+    for a in calls:
+        if ctx.mine("kwcalls"):
+            ctx.case(("kwcall", snapshot(a), tuple(getattr(a, "kw_parameters", {}) or ())), True, n=0)
+            ctx.count("keyword_order_nodes")
+            for b in calls:
+                ctx.run("C01.pair", (a, b))
+    for how in ("warning-as-error", "initargs-raise", "no-failure"):
+        for base_name in ("Variable", "Expression"):
+            for rep in range(3):
+                if ctx.mine("firstfailure"):
+                    ctx.case(("firstfailure", how, base_name, rep), True, n=0)
+                    ctx.run("C01.firstfailure", (how, base_name))
     for i, (o, twin) in enumerate(held_objects()):
         if ctx.mine("helpers"):
             ctx.case(("held", i), True, n=0)
@@ -794,6 +873,8 @@ def workload(ctx):
         ctx.run("C01.history", case)
     ctx.floor("wide_nodes", 150)
     ctx.floor("deep_nodes", 400)
+    ctx.floor("keyword_order_nodes", 20)
+    ctx.floor("legacy_classes_after_a_failed_first_use", 12)
     ctx.floor("helper_calls", 800)
     ctx.floor("pairs", 50000)
     ctx.floor("equal_pairs", 1000)
